@@ -76,6 +76,7 @@ type SiteAssert struct {
 	Props []string
 	After bool
 	Assume bool // assumed instead of proved (always listed)
+	Nth   int  // `"text"#N`: only the N-th matching source line of the function (0: every matching line)
 }
 
 type GhostAssign struct {
@@ -430,16 +431,20 @@ func (cs *ContractSet) LoadContractFile(path string, pkgKey string) error {
 			if curF == nil {
 				return fail("assert outside func block")
 			}
-			m := regexp.MustCompile(`^(after|before)\s+"((?:[^"\\]|\\.)*)"\s*:\s*(.*)$`).FindStringSubmatch(rest)
+			m := regexp.MustCompile(`^(after|before)\s+"((?:[^"\\]|\\.)*)"(?:#(\d+))?\s*:\s*(.*)$`).FindStringSubmatch(rest)
 			if m == nil {
-				return fail(`assert after|before "<source text>" : <expr>`)
+				return fail(`assert after|before "<source text>"[#N] : <expr>`)
 			}
-			e, err := ParseExpr(m[3])
+			e, err := ParseExpr(m[4])
 			if err != nil {
 				return fail("%v", err)
 			}
 			txt, _ := strconv.Unquote(`"` + m[2] + `"`)
-			curF.SiteAsserts = append(curF.SiteAsserts, &SiteAssert{Match: txt, Expr: e, Text: m[3], Props: props, After: m[1] == "after", Assume: kw == "assume"})
+			nth := 0
+			if m[3] != "" {
+				nth, _ = strconv.Atoi(m[3])
+			}
+			curF.SiteAsserts = append(curF.SiteAsserts, &SiteAssert{Match: txt, Expr: e, Text: m[4], Props: props, After: m[1] == "after", Assume: kw == "assume", Nth: nth})
 		case "assumelocked":
 			if curF == nil {
 				return fail("assumelocked outside func block")
